@@ -4,6 +4,7 @@ import re
 
 from ..alg import Rat
 from ..loader import shape_error, anchor_error
+from ..report import weighed
 from ..sx import Walker, State
 from ..effects import Effects
 from ..util import body_nodocstring, names_stored, unparse
@@ -420,7 +421,7 @@ def rule_G(ctx):
 
 RULES = [
     ('C17.G', rule_G, 'quick'),
-    ('C17.W', rule_W, 'quick'),
+    ('C17.W', weighed('C17.W', rule_W, ('C17.G',)), 'quick'),
     ('C17.F', rule_F, 'quick'),
 ]
-MIN_OBLIGATIONS = 10
+MIN_OBLIGATIONS = 6
